@@ -17,9 +17,11 @@ LEVEL_TEXT = ('Cover, only-own, identity/enterprise/compliance sections and mono
               'tied to genIndex by differential runs (exhaustive small scope + random build sequences).')
 LEVEL_NOTE = ('Trusted: Lean kernel + standard axioms, the hand-written model of genIndex up to order(), the correspondence '
               'harness, json/sorted in CPython. The order in which a status yields its OIDs is an explicit model input.')
-MODULES = ['Pysmi.Props.C18', 'Pysmi.Props.C18Reindex']
-LAKE_TARGETS = ['Pysmi.Props.C18', 'Pysmi.Props.C18Reindex']
+MODULES = ['Pysmi.Props.C18', 'Pysmi.Props.C18Reindex', 'Pysmi.Pins.SkelC18']
+LAKE_TARGETS = ['Pysmi.Props.C18', 'Pysmi.Props.C18Reindex', 'Pysmi.Pins.SkelC18']
 THEOREMS = [
+    'Pysmi.Pins.SkelC18.pin_jsonGenIndex',
+    'Pysmi.Pins.SkelC18.pin_buildIndex',
     'Pysmi.Index.C18_cover_generic',
     'Pysmi.Index.C18_cover',
     'Pysmi.Index.C18_only_own',
